@@ -1,6 +1,7 @@
 import Frp.Driver.Proto
 import Frp.Props.C07
 import Frp.Props.C07Conn
+import Frp.Props.C07Hand
 /-
   Driver engine "httpauth" (C07): replays the harness trace on Frp/Model/HttpAuth.lean and evaluates
   the C07 predicates on the implementation's answers.
@@ -24,6 +25,11 @@ structure HttpAuthState where
   wq : List WebItem := []             -- web requests queued by `wq`, answered at the next `wflush`
   TM : TmState := TmState.empty       -- the tcpmux muxer with the proxies run on it (`tpx` / `tclose`)
   tsh : Str := []                     -- its subDomainHost (`treset`)
+  HO : HoState := HoState.empty       -- the muxer of the hand-off ops (`holisten` / `hoconn` / `hoclose` / `hoaccept`)
+  hoL : List (Nat × (Nat × TmListener)) := []   -- harness listener id ↦ (object number, configuration as written)
+  hoC : List (Nat × ConnectReq) := []           -- harness connection id ↦ the CONNECT it sent
+  HG : HgState := HgState.empty       -- http load-balancing groups (`gjoin` / `gleave` / `greq`)
+  hgOwn : List (Nat × Creds) := []    -- proxy ↦ the credentials it is configured with (joins the implementation accepted)
 
 /-- "-" | "m<k>" ↦ none ; "b<k>:<hexu>:<hexp>" ↦ some (u, p) ; "r<hexvalue>" ↦ the parse of the raw value ;
     anything else ↦ malformed token -/
@@ -245,6 +251,23 @@ def parsePlReqs : List String → Option (List PlReq)
     | _, _, _ => none
   | _ => none
 
+def natInsert (x : Nat) : List Nat → List Nat
+  | [] => [x]
+  | y :: ys => if x ≤ y then x :: y :: ys else y :: natInsert x ys
+
+def natSort (l : List Nat) : List Nat := l.foldr natInsert []
+
+def hgResString : HgRes → String
+  | .ok => "ok" | .conflict => "conflict" | .params => "params" | .auth => "auth" | .repeated => "repeated"
+
+/-- "got:<cid>:<lid>" -/
+def parseGot (s : String) : Option (Nat × Nat) :=
+  match s.splitOn ":" with
+  | ["got", c, l] => match c.toNat?, l.toNat? with
+    | some c, some l => some (c, l)
+    | _, _ => none
+  | _ => none
+
 def httpAuthStep (st : HttpAuthState) (tok : List String) (impl : String) : HttpAuthState × Verdict :=
   match tok with
   | ["reset"] => ({}, verdictOf "-" impl)
@@ -353,6 +376,102 @@ def httpAuthStep (st : HttpAuthState) (tok : List String) (impl : String) : Http
     -- proxy carries the proxy's httpUser / httpPassword / routeByHTTPUser, each in its own field" is evaluated
     -- on the implementation's own dump
     (st, verdictOf (tmView st.TM) impl (some (impl == tmSpecView st.tsh st.TM)))
+  | ["horeset"] => ({ st with HO := HoState.empty, hoL := [], hoC := [] }, verdictOf "-" impl)
+  | ["holisten", lid, d, ru, u, p] =>
+    -- the real Muxer.Listen; the harness owns the listener (it accepts when an `hoaccept` says so)
+    match lid.toNat?, unhx d, unhx ru, unhx u, unhx p with
+    | some lid, some d, some ru, some u, some p =>
+      if st.hoL.any (fun x => x.1 = lid) then (st, verdictOf "busy" impl) else
+      let l : TmListener := ⟨d, ru, u, p⟩
+      let (S', res) := hoListen st.HO l
+      if res = .ok then ({ st with HO := S', hoL := (lid, (st.HO.next, l)) :: st.hoL }, verdictOf "ok" impl)
+      else (st, verdictOf "conflict" impl)
+    | _, _, _, _, _ => (st, .bad "holisten")
+  | ["hoconn", cid, h, pa] =>
+    -- a real CONNECT; park = past the checks, waiting to be accepted
+    match cid.toNat?, unhx h, parseAuthTok pa with
+    | some cid, some h, some pa =>
+      let q : ConnectReq := { host := canon (h ++ Str.ofString ":443"), pauth := pa }
+      let (S', r) := hoArrive st.HO cid q
+      let ms := match r with | .notFound => "404" | .proxyAuthRequired => "407" | .accept _ => "park"
+      ({ st with HO := S', hoC := (cid, q) :: st.hoC }, verdictOf ms impl)
+    | _, _, _ => (st, .bad "hoconn")
+  | ["hoclose", lid] =>
+    -- the real Listener.Close; what became of the connections waiting at it
+    match lid.toNat? with
+    | some lid =>
+      match st.hoL.lookup lid with
+      | some (n, _) =>
+        let gone := if st.HO.closed.contains n then [] else (st.HO.parked.filter (fun x => x.dst = n)).map (·.cid)
+        let ms := if gone.isEmpty then "-" else ",".intercalate ((natSort gone).map (fun c => s!"{c}:c"))
+        ({ st with HO := hoClose false st.HO n }, verdictOf ms impl)
+      | none => (st, verdictOf "-" impl)
+    | none => (st, .bad "hoclose")
+  | ["hoaccept", lid] =>
+    -- the real Listener.Accept: which connection came out of which listener.  The clause "a connection comes out
+    -- of a listener only if it carried that listener's credentials" is evaluated on the implementation's own answer
+    match lid.toNat? with
+    | some lid =>
+      let got := parseGot impl
+      let prop : Option Bool :=
+        match got with
+        | some (c, l') =>
+          match st.hoL.lookup l', st.hoC.lookup c with
+          | some (_, l), some q => some (C07.hoHoldsOn l q.pauth)
+          | _, _ => none
+        | none => some true
+      match st.hoL.lookup lid with
+      | some (n, _) =>
+        let waiting := if st.HO.closed.contains n then [] else st.HO.parked.filter (fun x => x.dst = n)
+        -- which of the blocked senders is woken is the runtime's choice: follow the implementation if it names one
+        let pickC : Option Nat :=
+          match got with
+          | some (c, l') => if l' = lid ∧ waiting.any (fun x => x.cid = c) then some c else (waiting.head?).map (·.cid)
+          | none => (waiting.head?).map (·.cid)
+        match pickC with
+        | some c => ({ st with HO := hoAccept st.HO n c }, verdictOf s!"got:{c}:{lid}" impl prop)
+        | none => (st, verdictOf "none" impl prop)
+      | none => (st, verdictOf "none" impl prop)
+    | none => (st, .bad "hoaccept")
+  | ["greset"] => ({ st with HG := HgState.empty, hgOwn := [] }, verdictOf "-" impl)
+  | ["gjoin", pid, g, k, d, l, ru, u, p] =>
+    -- the real HTTPGroupController.Register on the routers of a real HTTPReverseProxy
+    match pid.toNat?, unhx g, unhx k, unhx d, unhx l, unhx ru, unhx u, unhx p with
+    | some pid, some g, some k, some d, some l, some ru, some u, some p =>
+      let (S', res) := hgJoin true st.HG ⟨pid, g, k, d, l, ru, u, p⟩
+      ({ st with HG := S', hgOwn := if impl == "ok" then (pid, ⟨u, p⟩) :: st.hgOwn else st.hgOwn },
+       verdictOf (hgResString res) impl)
+    | _, _, _, _, _, _, _, _ => (st, .bad "gjoin")
+  | ["gleave", pid, g] =>
+    match pid.toNat?, unhx g with
+    | some pid, some g => ({ st with HG := hgLeave st.HG g pid }, verdictOf "-" impl)
+    | _, _ => (st, .bad "gleave")
+  | ["greq", h, p, a] =>
+    -- a real request through ServeHTTP; fwd:<pid> = the backend of member <pid> answered.  The clause "a request
+    -- served by member m carried m's OWN credentials" is evaluated on the implementation's answer
+    match unhx h, unhx p, parseAuthTok a with
+    | some h, some p, some a =>
+      if !targetInDomain "o" p then (st, .skip "request target outside the modelled syntax") else
+      let w : WireReq := { host := h, proxied := false, target := p, auth := a, pauth := none }
+      let implPid : Option Nat := if impl.startsWith "fwd:" then (impl.drop 4).toString.toNat? else none
+      let ms := match serveWire st.HG.T w with
+        | none => "st:400"
+        | some (.forward rid) =>
+          match hgByRoute st.HG rid with
+          | some g =>
+            -- which member the rotation picks is the group's choice: follow the implementation if it names a member
+            (match implPid with
+             | some pid => if g.members.any (fun m => m.pid = pid) then s!"fwd:{pid}"
+                           else s!"fwd:{(g.members.head?.map (·.pid)).getD 0}"
+             | none => s!"fwd:{(g.members.head?.map (·.pid)).getD 0}")
+          | none => "fwd:?"
+        | some r => respString r
+      let prop : Option Bool :=
+        match implPid with
+        | some pid => (st.hgOwn.lookup pid).map (fun own => C07.hgHoldsOn own a)
+        | none => some true
+      (st, verdictOf ms impl prop)
+    | _, _, _ => (st, .bad "greq")
   | ["mw", u, p, a] =>
     -- the real middleware in front of a recording handler; the model starts from the header bytes
     match unhx u, unhx p, authTokHeader a with
